@@ -116,6 +116,8 @@ func (v *VerifC35Conn) Race(streamID uint32, finish func(), writeClient func()) 
 	select {
 	case r := <-res:
 		return r
+	case <-sc.doneServing: // the serve loop ended inside the schedule (e.g. it panicked)
+		return -8
 	case <-time.After(20 * time.Second):
 		return -6
 	}
